@@ -81,7 +81,8 @@ fn handle_gen(req: &Value) -> Value {
         || wants(req, "lexev")
         || wants(req, "buildev")
         || wants(req, "fillev")
-        || wants(req, "names");
+        || wants(req, "names")
+        || wants(req, "closev");
     if want_events {
         kiki::verif::start_recording();
     }
@@ -119,6 +120,7 @@ fn handle_gen(req: &Value) -> Value {
                     FirstPass { .. } | FirstSets(_) | BuilderPop(_) | BuilderTarget { .. } => wants(req, "buildev"),
                     ScanItem { .. } | SetAction { .. } | FillOrder(_) | GotoFillOrder(_) => wants(req, "fillev"),
                     FreshNames(_) => wants(req, "names"),
+                    Closure { .. } => wants(req, "closev"),
                     #[allow(unreachable_patterns)]
                     _ => wants(req, "buildev"),
                 }
